@@ -87,7 +87,7 @@ def run(env, res):
     res.rule = ('directed families (expectation from the property text) first, then seeded random pipelines '
                 '(1-3 pipelines, 1-4 groups, 0-4 steps per group, decorators with p~0.25 each); a case is '
                 'non-trivial when the model accepts it and it terminates; distinct by canonical program text')
-    directed = [('c04', fo.c04_family, env.n(60, 100000))]
+    directed = [('c04', fo.c04_family, env.n(200, 100000))]
     flowcheck.run_streams(env, res, directed, env.n(500, 20000), weights={'fail': 5, 'set': 2},
                           random_monitor=flowcheck.monitor_all)
 
